@@ -10,7 +10,7 @@ from ..strat import uni, logu, pos
 from .c18 import uv, ASOL, CL, RT3, SUO
 
 META = dict(
-    technique='Hypothesis-generated parameters and fine ordered point sequences; sign / ordering / monotonicity / boundedness predicates on the returned fields',
+    technique='Hypothesis-generated parameters and fine ordered point sequences; sign / ordering / monotonicity / boundedness predicates on the returned fields; coverage-guided supplement: the same strategy and oracle driven by atheris/libFuzzer through Hypothesis fuzz_one_input (obligations *-atheris)',
     rule='cases = (solver, admissible parameters, time, an ordered fine sequence of points spanning every region; Mader grids placed so that a cell straddles the tail of the '
          'Taylor wave with every offset); oracle = rho > 0 (exactly 0 only in documented vacuum), p, e, T >= 0, sound speed real; shocks compressive in the crossing direction; '
          'p, rho, u monotone inside each fan; values in a cell/point between two constant states lie between them; Su-Olson 0 <= v <= u <= 1 and monotone in x and t; '
